@@ -20,6 +20,7 @@ License: 3-clause BSD. (See the COPYRIGHT file)
 from __future__ import annotations
 
 import json
+import math
 from struct import error as struct_error, unpack
 from typing import TYPE_CHECKING, Any, Callable, ClassVar, Protocol
 
@@ -290,6 +291,10 @@ def jsonable(content: Any) -> Any:
         return {str(jsonable(key)): jsonable(value) for key, value in content.items()}
     if isinstance(content, (list, tuple)):
         return [jsonable(item) for item in content]
+    if isinstance(content, float) and not math.isfinite(content):
+        # the peer chooses the four octets of a bandwidth: json.dumps writes an IEEE-754 NaN or
+        # infinity as the bare words NaN / Infinity, which are not JSON and which no parser accepts
+        return str(content)
     if isinstance(content, (str, int, float, bool)) or content is None:
         return content
     return str(content)
